@@ -1,6 +1,6 @@
 (* C01 property theorems (theorems only; proofs in the other C01 files). *)
 From Coq Require Import Lia.
-From Wz Require Import lib.Bytes C01.Gen C01.Model C01.Pins C01.Proofs C01.Strings C01.Hold C01.Search C01.Inv C01.Chunks.
+From Wz Require Import lib.Bytes C01.Gen C01.Model C01.Pins C01.Proofs C01.Strings C01.Hold C01.Search C01.Inv C01.Chunks C01.Render C01.HeaderBlock C01.Identity.
 Open Scope N_scope.
 
 (* the pattern texts, templates, state names and SEARCH_EXTRA_LENGTH the hand-written matchers
@@ -200,3 +200,78 @@ Example C01_wf_needed_inner_glitch :
   ~ parts_equiv (drive no_limits ex_B [firstn 27 ex_W4; skipn 27 ex_W4]) (drive no_limits ex_B [ex_W4]).
 Proof. exact wf_needed_inner_glitch. Qed.
 Print Assumptions C01_wf_needed_inner_glitch.
+
+(* THEOREM B.  render B lb pre ps tail = pre ++ --B ++ (LB hdr LB [LB payload] LB --B)* ++ -- ++ tail
+   (Render.v; lb = CR LF, LF or CR; pre = preamble and the optional line break of the first
+   delimiter; a part with r_body = None is body-less).  wf_body (computable):
+     - no --B starts inside pre;
+     - every header block is non-empty, does not start with LF, and the first blank line of
+       hdr LB LB is the LB LB at its end (the non-empty condition is a simplification: the real
+       decoder rejects an empty header block anyway);
+     - in [LB payload] LB --B (LB | --) the leftmost boundary_re match is the closing LB --B..., and
+       the line break that starts the body is exactly LB (for CR bodies: payload not starting with LF).
+   Then the body satisfies the hypotheses of theorem A, and the one-shot run yields exactly the
+   rendered parts (raw header block, payload).  This is the sans-io half of C02. *)
+Theorem C01_decode_render : forall B lb pre ps tail,
+  good_boundary B = true -> wf_body B lb pre ps tail = true ->
+  wf_oneshot B (render B lb pre ps tail) = true /\
+  exists evs, drive no_limits B [render B lb pre ps tail] = Ok evs /\ parts_of evs = map spec_part ps.
+Proof. exact decode_render. Qed.
+Print Assumptions C01_decode_render.
+
+(* COROLLARY C.  Every chunking of a rendered body yields the rendered parts: payloads exactly, header
+   blocks up to one leading LF.  The read loop of MultiPartParser.parse is the model's feed, so
+   every buffer size and every pattern of short reads is an instance. *)
+Theorem C01_decode_render_chunked : forall B lb pre ps tail chunks,
+  good_boundary B = true -> wf_body B lb pre ps tail = true ->
+  concat chunks = render B lb pre ps tail ->
+  exists evs, drive no_limits B chunks = Ok evs /\
+    Forall2 (fun a e : part => (fst a = fst e \/ fst a = LF :: fst e) /\ snd a = snd e)
+            (parts_of evs) (map spec_part ps).
+Proof. exact decode_render_chunked. Qed.
+Print Assumptions C01_decode_render_chunked.
+
+(* the rendered text part by part, as MultipartEncoder writes it (pre ends with the line break) *)
+Theorem C01_render_flat : forall B lb pre ps tail,
+  render B lb (pre ++ lbs lb) ps tail =
+  pre ++ flat_map (render_part B lb) ps ++ lbs lb ++ dd B ++ [DASH; DASH] ++ tail.
+Proof. exact render_flat. Qed.
+Print Assumptions C01_render_flat.
+
+(* wf_body is satisfiable: the three-part CR LF body of C01_wf_example is a rendered body *)
+Example C01_render_example :
+  render ex_B LBcrlf [] [ex_p1; ex_p2; ex_p3] crlf = ex_body /\
+  good_boundary ex_B = true /\ wf_body ex_B LBcrlf [] [ex_p1; ex_p2; ex_p3] crlf = true.
+Proof. exact render_example. Qed.
+Print Assumptions C01_render_example.
+
+(* the restriction of bare-LF bodies to payloads free of the other newline kind is needed *)
+Example C01_wf_body_needed_other_newline :
+  let p := mkrp [97; 58; 49] (Some [120; CR]) in
+  wf_body ex_B LBlf [] [p] [LF] = false /\
+  decoded ex_B (render ex_B LBlf [] [p] [LF]) = Some [([97; 58; 49], [120])].
+Proof. exact wf_body_needed_other_newline. Qed.
+Print Assumptions C01_wf_body_needed_other_newline.
+
+(* a delimiter inside a payload is needed to be excluded *)
+Example C01_wf_body_needed_payload_delim :
+  let p := mkrp [97; 58; 49] (Some ([120] ++ ex_delim ++ crlf ++ [121])) in
+  wf_body ex_B LBcrlf [] [p] crlf = false /\
+  decoded ex_B (render ex_B LBcrlf [] [p] crlf) <> Some (map spec_part [p]).
+Proof. exact wf_body_needed_payload_delim. Qed.
+Print Assumptions C01_wf_body_needed_payload_delim.
+
+(* ---- part identity.  Kind (field or file), name, filename and the header list are functions of
+   the PARSED header block (coq/C01/HeaderBlock.v models MultipartDecoder._parse_headers and is
+   compared with it on every run).  A leading LF in front of a raw block does not change it ... *)
+Theorem C01_parse_headers_leading_lf : forall h, parse_headers (hLF :: h) = parse_headers h.
+Proof. exact parse_headers_leading_lf. Qed.
+Print Assumptions C01_parse_headers_leading_lf.
+
+(* ... so chunk independence holds as the property states it: same parts, same parsed headers,
+   byte-exact payloads, for every chunking of a body the one-shot decoder accepts *)
+Theorem C01_chunk_independence_parsed : forall B W chunks,
+  good_boundary B = true -> wf_oneshot B W = true -> concat chunks = W ->
+  same_parsed_parts (drive no_limits B chunks) (drive no_limits B [W]).
+Proof. exact chunk_independence_parsed. Qed.
+Print Assumptions C01_chunk_independence_parsed.
